@@ -13,7 +13,7 @@ GatesOf(p) ==
                            "required_item", "unknown_required_item", "locator_type", "parent_resolved", "bat_region">>
     [] p = "vdi"      -> <<"signature">>
     [] p = "hds"      -> <<"signature">>
-    [] p = "hdd"      -> <<"descriptor_present", "image_type", "parent_image_type">>   \* image types of every snapshot in the chain
+    [] p = "hdd"      -> <<"descriptor_present", "image_type", "parent_image_type", "ancestor_image_present">>   \* image types of every snapshot in the chain; an image for each of them in every storage
     [] p = "vmdk-sparse" -> <<"magic", "footer_magic">>                                 \* stream-optimised extents carry a second header at the end
     [] p = "vmdk-delta" -> <<"extent_present", "parent_present">>      \* a delta disk: the files its descriptor names, the parent it hints at
     [] p = "hyperv"   -> <<"header_signature", "version", "replay_log_signature", "object_table_signature", "chained_object_table_signature",
